@@ -579,10 +579,7 @@ curve type.  The model's operations read the registry of every usage call off `s
 So releasing a pattern through the CURVE registry (the first C14 defect), a dropped or an added bookkeeping call, a changed key
 expression or a typed set that is no longer discarded breaks one of these four theorems, not only the differential run. -/
 
-/-- the second alternative is the tree before fixes/C14-demands-keep-pattern-usage-in-step.patch (no `Demands._edit`); it goes once
-that patch is in the tree -/
-theorem usage_calls_as_modelled :
-    Gen.RegistryCalls.usageCalls = expectedUsageCalls ∨ Gen.RegistryCalls.usageCalls = expectedUsageCallsBeforeDemandsSync := by decide
+theorem usage_calls_as_modelled : Gen.RegistryCalls.usageCalls = expectedUsageCalls := by decide
 theorem typed_adds_as_modelled : Gen.RegistryCalls.typedAdds = expectedTypedAdds := by decide
 theorem typed_discards_as_modelled : Gen.RegistryCalls.typedDiscards = expectedTypedDiscards := by decide
 theorem curve_type_sets_as_modelled : Gen.RegistryCalls.curveTypeSets = expectedCurveTypeSets := by decide
